@@ -619,6 +619,18 @@ class SoftwareVersion:
                 and self_post._scp_data_length == self._scp_data_length)
 
 
+def _norm(names, args, kwargs):
+    """a recorded call's arguments in PARAMETER ORDER, whether they were passed by position or by keyword (trailing ones left out
+    stay left out)"""
+    d = dict(zip(names, args))
+    d.update(kwargs)
+    out = []
+    for n in names:
+        if n in d:
+            out.append(d[n])
+    return tuple(out)
+
+
 # ---- get_processor_status: which block of which chip is read (fragment: its first two statements) ------------------------------------
 def _ps_structs_getitem(E, obj, args, kwargs, st, node):
     return [(st, ObjV("OpaqueStruct", {"size": st.env["g_size"]}), None)]
@@ -626,13 +638,13 @@ def _ps_structs_getitem(E, obj, args, kwargs, st, node):
 
 def _ps_read_struct_field(E, obj, args, kwargs, st, node):
     s = st.copy()
-    s.trace = ListV(s.trace.items + (("read_struct_field",) + tuple(args) + tuple(sorted(kwargs.items())),))
+    s.trace = ListV(s.trace.items + (("read_struct_field",) + _norm(("struct_name", "field_name", "x", "y", "p"), args, kwargs),))
     return [(s, st.env["g_base"], None)]
 
 
 def _ps_read(E, obj, args, kwargs, st, node):
     s = st.copy()
-    s.trace = ListV(s.trace.items + (("read",) + tuple(args) + tuple(sorted(kwargs.items())),))
+    s.trace = ListV(s.trace.items + (("read",) + _norm(("address", "length_bytes", "x", "y", "p"), args, kwargs),))
     return [(s, ObjV("Bytes", {"ident": 5}), None)]
 
 
@@ -662,7 +674,7 @@ class ProcessorStatusBlock:
 # ---- the small probes: the chip asked is the chip named ------------------------------------------------------------------------------
 def _sp_chip_info(E, obj, args, kwargs, st, node):
     s = st.copy()
-    s.trace = ListV(s.trace.items + (("get_chip_info",) + tuple(args) + tuple(sorted(kwargs.items())),))
+    s.trace = ListV(s.trace.items + (("get_chip_info",) + _norm(("x", "y"), args, kwargs),))
     return [(s, ObjV("ChipInfo", {"working_links": ObjV("LinkSet", {"ident": 8}), "ip_address": ObjV("Str", {"ident": 9}),
                                    "ethernet_up": st.env["g_up"]}), None)]
 
@@ -696,7 +708,7 @@ class IpAddress:
         raise __import__("pyvc.replay", fromlist=["OutsideHarness"]).OutsideHarness()
 
     def ensures_of_the_chip_named_and_none_iff_the_link_is_down(x, y, g_up, result, _trace):
-        return (len(_trace) == 1 and _trace[0] == ("get_chip_info", ("x", x), ("y", y))
+        return (len(_trace) == 1 and _trace[0] == ("get_chip_info", x, y)
                 and implies(g_up, result is not None and result.ident == 9) and implies(not g_up, result is None))
 
 
@@ -718,7 +730,7 @@ class NumWorkingCores:
 
 def _io_read_vcpu(E, obj, args, kwargs, st, node):
     s = st.copy()
-    s.trace = ListV(s.trace.items + (("read_vcpu_struct_field",) + tuple(args) + tuple(sorted(kwargs.items())),))
+    s.trace = ListV(s.trace.items + (("read_vcpu_struct_field",) + _norm(("field_name", "x", "y", "p"), args, kwargs),))
     return [(s, st.env["g_first"], None)]
 
 
